@@ -777,7 +777,11 @@ def _prepare_interferometer_matrix_in_expanded_space(interferometer_svd):
 
 
 def _calculate_singular_values_matrix_expansion(singular_values_vector):
-    vector_of_squared_expansions = 1.0 - np.power(singular_values_vector, 2)
+    # NOTE: The singular values of a lossless part may exceed 1 by rounding errors, which
+    # would result in NaNs below.
+    vector_of_squared_expansions = np.clip(
+        1.0 - np.power(singular_values_vector, 2), 0.0, None
+    )
 
     expansion_values = np.sqrt(vector_of_squared_expansions)
 
